@@ -1,9 +1,50 @@
-(* Props/C01.v -- property C01 (statements proved so far; see DESIGN.md section 7 C01). *)
-From Coq Require Import NArith List Bool.
-From NRF Require Import Env.Radio Env.RadioFacts.
+(* Props/C01.v -- property C01 (what send() is given is what the peer's read() returns).  Statements, each closed
+   by `exact`.  The property is a chain of three links, each proved for the models:
+     (1) transmitter: send() loads exactly the normalised payload and raises CE (C02_send_truth, Props/C02.v:
+         the world in which the exchange takes place has `loaded ... b` queued, b = norm_payload of the caller's buffer);
+     (2) air: an exchange whose first attempt is not lost puts exactly that payload, once, on the matching pipe
+         of a compatible listening receiver with room in its FIFO -- however many retransmissions follow;
+     (3) receiver: read() returns the payload at the head of the RX FIFO and removes it.
+   PARTIAL, see DESIGN.md section 7: the links are proved separately (1 and 3 for a transmitter/receiver in a
+   world whose other radios do not transmit); their composition over streams of payloads, list arguments,
+   role swaps, and that the caller's buffer is left alone are decided by the correspondence run and its
+   delivery checker (corr/c01.py). *)
+From Coq Require Import ZArith NArith List Bool.
+From NRF Require Import Env.Radio Env.World Env.RadioFacts Env.WorldFacts Env.WfFacts Env.QuietFacts
+     Drv.RF24 Drv.SendFacts Drv.RecvFacts.
 Import ListNotations.
 Local Open Scope N_scope.
-Theorem C01_status_is_pre_command : forall r cmd data,
-  hd 0 (snd (spi r (cmd :: data))) = status r.
+
+Theorem C01_status_is_pre_command : forall r cmd data, hd 0 (snd (spi r (cmd :: data))) = status r.
 Proof. exact spi_status_first. Qed.
 Print Assumptions C01_status_is_pre_command.
+
+(* (2) the air *)
+Theorem C01_exchange_delivers : forall w si j e rest p,
+  (si < length (radios w))%nat -> (j < length (radios w))%nat -> j <> si ->
+  tx_fifo (get_radio w si) = e :: rest ->
+  match oracle w with PacketLost :: _ => False | _ => True end ->
+  rx_pipe (get_radio w si) (get_radio w j) (tx_data e) = Some p ->
+  rx_full (get_radio w j) = false -> is_dup (get_radio w j) (tx_pid e) (tx_data e) = false ->
+  rx_fifo (get_radio (exchange w si) j) = rx_fifo (get_radio w j) ++ [(p, tx_data e)].
+Proof. exact exchange_delivers. Qed.
+Print Assumptions C01_exchange_delivers.
+
+(* a retransmitted packet (same PID and payload as the last one accepted) is never queued twice *)
+Theorem C01_duplicates_are_dropped : forall r p pid noack d h, is_dup r pid d = true ->
+  let r' := fst (fst (receive r p pid noack d h)) in
+  rx_fifo r' = rx_fifo r /\ last_rx r' = last_rx r.
+Proof. exact receive_dup. Qed.
+Print Assumptions C01_duplicates_are_dropped.
+
+(* (3) the receiver *)
+Theorem C01_read_returns_the_head : forall me d w p data rest,
+  Q me w -> WfR (get_radio w me) -> prim_rx (get_radio w me) = true ->
+  rx_fifo (get_radio w me) = (p, data) :: rest -> (1 <= length data <= 32)%nat ->
+  (truthy (Z.land (d_features d) 4) = true \/ pl_len_at d (N.to_nat p) = Z.of_nat (length data)) ->
+  exists d' w', read (WB me) None d w = (Ok (Some data), d', w')
+    /\ rx_fifo (get_radio w' me) = rest
+    /\ tx_fifo (get_radio w' me) = tx_fifo (get_radio w me)
+    /\ N.testbit (flags (get_radio w' me)) 6 = false.
+Proof. exact read_head. Qed.
+Print Assumptions C01_read_returns_the_head.
